@@ -3,7 +3,8 @@
     real front end + Compile build, Generated/PegPeg.v) and the corollaries of C01/C02 at these terms, for
     EVERY grammar text.  Byte-level convergence of the chain of go-run processes and the agreement of the
     shipped grammars on their samples are execution facts, decided by the check itself. *)
-From PegV Require Import Base.Tac Spec.Syntax Spec.Peg Spec.WF Model.Machine Model.SkipCheck Model.Gen Proofs.Top Generated.PegPeg.
+From PegV Require Import Base.Tac Spec.Syntax Spec.Peg Spec.WF Model.Machine Model.SkipCheck Model.Optimize Model.Gen
+  Proofs.OptSound Proofs.Top Proofs.OptTop Generated.PegPeg.
 
 (** peg.peg is a well-formed grammar, its trees contain only code-point literals, and every switch of
     the -inline -switch tree is well guarded *)
@@ -36,3 +37,32 @@ Proof.
     intros ->. vm_compute in E. discriminate.
 Qed.
 Print Assumptions C17_frontend_total.
+
+(** The -inline -switch tree that the implementation builds for peg.peg IS the model's optimiser applied
+    to the default tree, and the analysis table of peg.peg is consistent. *)
+Theorem C17_switch_tree_is_optimize : optimize pegpeg_d = pegpeg_is /\ opt_ok_b pegpeg_d = true.
+Proof. vm_compute. split; reflexivity. Qed.
+Print Assumptions C17_switch_tree_is_optimize.
+
+(** Hence a front end regenerated with -switch (with or without -inline, memoised or not) and the
+    default one read EVERY grammar text alike: same verdict, same consumed prefix, same token
+    sequence - therefore the same syntax tree handed to the actions that build the rule tree. *)
+Theorem C17_frontends_agree :
+  forall ptx buf penv memo memo' inline inline' st0 st0',
+    good_buf buf -> valid_buf buf -> slot_ok pegpeg_d inline 0 -> slot_ok pegpeg_is inline' 0 ->
+    exists n b st1 st2,
+      machine pegpeg_d ptx buf penv memo inline n 0 st0 = Some (Ret b st1) /\
+      machine pegpeg_is ptx buf penv memo' inline' n 0 st0' = Some (Ret b st2) /\
+      (b = true -> pos st1 = pos st2 /\ Machine.live st1 = Machine.live st2).
+Proof.
+  intros ptx buf penv memo memo' inline inline' st0 st0' Hb Hv Hs Hs'.
+  destruct C17_pegpeg_wellformed as (W1 & G1 & S1 & W2 & G2 & S2).
+  destruct C17_switch_tree_is_optimize as (Eo & Ho).
+  destruct (nth_error pegpeg_d 0) as [rb|] eqn:E; [|vm_compute in E; discriminate].
+  rewrite <- Eo in *.
+  eapply (c02_switch_invisible pegpeg_d (nul_table pegpeg_d) (rank_table pegpeg_d (nul_table pegpeg_d)) W1 Ho
+            (good_grammar_b_ok _ G1) (good_grammar_b_ok _ G2) (good_switches_b_ok _ S1) (good_switches_b_ok _ S2)
+            ptx buf penv Hb Hv memo memo' inline inline' 0 rb st0 st0' E); auto.
+  intros ->. vm_compute in E. discriminate.
+Qed.
+Print Assumptions C17_frontends_agree.
